@@ -207,4 +207,34 @@ func ZZH_C12_refuse_ledger() {
 	}
 	zz.Cover("C12.ledger.below-window", t < n-10)
 	zz.Cover("C12.ledger.above-head", t > n)
+	if err != nil || t == n {
+		return
+	}
+	// a different continuation after the accepted rollback, then a second rollback request: the
+	// journal window never moves backwards (journals below n-10 were pruned for good)
+	tc := uint64(0) // the accepted target as a concrete number (the path condition fixes it)
+	for c := uint64(1); c < n; c++ {
+		if t == c {
+			tc = c
+		}
+	}
+	bd := zzExecBlockWith(lg, tc+1, meta.BlockHash, 0, uint8(100+tc))
+	lg.PersistBlockData(bd)
+	head := tc + 1
+	chain2, state2 := chainStore.Clone(), stateStore.Clone()
+	t2 := zz.U64("target2")
+	zz.Assume(t2 >= 1)
+	err2 := lg.Rollback(t2)
+	if t2 > head || t2 < n-10 {
+		zz.Assert("C12.ledger.second-refused-without-effect", err2 != nil && lg.GetChainMeta().Height == head && lg.Version() == head &&
+			chainStore.Same(chain2) && stateStore.Same(state2))
+	} else {
+		zz.Assert("C12.ledger.second-accepted", err2 == nil && lg.GetChainMeta().Height == t2 && lg.Version() == t2)
+		ok, got := lg.GetState(zzAddrs[0], []byte("a"))
+		want := t2
+		if t2 == head {
+			want = 100 + tc // the continuation block itself
+		}
+		zz.Assert("C12.ledger.second-accepted-state", ok && len(got) == 1 && uint64(got[0]) == want)
+	}
 }
